@@ -192,7 +192,7 @@ func (m zzIdent) CryptBlocks(dst, src []byte) {
 //
 //verif:property C19
 //verif:expect-reach end
-//verif:bound stream length each of 0..20 (quick) / 0..40 (thorough), block size 8, content symbolic, bytes.Reader as source (single full read then EOF)
+//verif:bound stream length each of 0..20 (quick) / 0..40 (thorough), block size 8, content symbolic; plaintext source a bytes.Reader; ciphertext source a bytes.Reader, a reader returning its last bytes together with io.EOF, or one returning at most 3 bytes per call (the last with io.EOF)
 //verif:outside sources that return short reads between the helper and the padding reader make CryptBlocks see partial blocks only if the padding reader returns non-multiples; that is covered by H19-reader's prefix property, not here
 //verif:unwind 1200
 func zzH_c19_block() {
@@ -209,8 +209,40 @@ func zzH_c19_block() {
 	padLen := bs - L%bs
 	vAssert("enc-len", len(enc.buf) == L+padLen)
 	dec := &zzSink{}
-	err = P7BlockDecrypt(zzIdent{bs}, bytes.NewReader(enc.buf), dec)
+	// the ciphertext source: a bytes.Reader (data, then a separate EOF), a reader that hands out its
+	// last bytes together with io.EOF, or one that returns at most 3 bytes per call
+	var csrc io.Reader = bytes.NewReader(enc.buf)
+	switch vChoice("cipherSource", 3) {
+	case 1:
+		csrc = &zzEOFReader{data: enc.buf, chunk: 1 << 30}
+	case 2:
+		csrc = &zzEOFReader{data: enc.buf, chunk: 3}
+	}
+	err = P7BlockDecrypt(zzIdent{bs}, csrc, dec)
 	vAssert("dec-ok", err == nil)
 	vAssert("roundtrip", bytes.Equal(dec.buf, data))
 	vReach("end")
+}
+
+// zzEOFReader returns at most chunk bytes per call and reports io.EOF together with the last bytes.
+type zzEOFReader struct {
+	data  []byte
+	pos   int
+	chunk int
+}
+
+func (r *zzEOFReader) Read(p []byte) (int, error) {
+	n := len(r.data) - r.pos
+	if n > len(p) {
+		n = len(p)
+	}
+	if n > r.chunk {
+		n = r.chunk
+	}
+	copy(p, r.data[r.pos:r.pos+n])
+	r.pos += n
+	if r.pos >= len(r.data) {
+		return n, io.EOF
+	}
+	return n, nil
 }
